@@ -131,6 +131,10 @@ func (c *fctx) checkOrder(n ast.Node) {
 				written[o] = true
 				calls = append(calls, x)
 			}
+			for _, o := range c.t.foreignWrites08(x) { // [ext:T08] slice arguments a foreign function writes
+				written[o] = true
+				calls = append(calls, x)
+			}
 			if fn, _ := c.t.calleeOf(x); fn != nil { // [ext:T20] package-level state written by the callee
 				if fi := c.t.funcs[fn]; fi != nil {
 					for g := range fi.gwrites {
@@ -248,7 +252,7 @@ func (c *fctx) assignTo(lhs ast.Expr, val string, en *env, k func() string) stri
 		return c.expr(ix.X, en, func(b string) string {
 			return c.expr(ix.Index, en, func(i string) string {
 				v := c.fresh("s")
-				return fmt.Sprintf("do %s <- m_set %s %s %s;;\n%s", v, b, i, val, c.store(ix.X, v, en, k))
+				return fmt.Sprintf("do %s <- %s %s %s %s;;\n%s", v, setFn08(c.t.exprType(ix.X)), b, i, val, c.store(ix.X, v, en, k)) // [ext:T08] m_setA on [][]byte
 			})
 		})
 	}
@@ -331,6 +335,7 @@ func (c *fctx) stmt(s ast.Stmt, en *env, lc *lctx, next kont) string {
 				t.fail(s, "pointer variable %s", it.id.Name)
 			}
 			if it.val == nil {
+				c.noZero08(g, it.id) // [ext:T08]
 				en2, name := c.declare(en, obj, g)
 				return fmt.Sprintf("let %s := %s in\n%s", name, g.zero(), rec(i+1, en2))
 			}
@@ -400,6 +405,7 @@ func (c *fctx) retTerm(en *env, vs []string) string {
 	for _, g := range c.t.ordered20(c.fi.gwrites) { // [ext:T20] written package-level state is returned
 		parts = append(parts, c.globalName20(g, en, c.fi.decl))
 	}
+	parts = append(parts, c.outNames08(en)...) // [ext:T08] output parameters
 	if len(parts) == 0 {
 		return tuple(vs)
 	}
@@ -465,7 +471,7 @@ func (c *fctx) assign(x *ast.AssignStmt, en *env, next kont) string {
 			en3 := en2
 			if rhs != nil {
 				en3 = c.noteAlias(lhs, rhs[i], en2)
-			} else if k := c.sliceKey(lhs, en2); k != "" && t.exprType(lhs).k == kSlice {
+			} else if k := c.sliceKey(lhs, en2); k != "" && c.lhsType08(lhs, en2).k == kSlice { // [ext:T08] `a, err := f()` with err redeclared: no entry in info.Types
 				en3 = en2.share(k)
 			}
 			return c.assignTo(lhs, vs[i], en2, func() string { return rec(i+1, en3) })
@@ -720,7 +726,7 @@ func (c *fctx) rangeStmt(x *ast.RangeStmt, en *env, lc *lctx, next kont) string 
 					return rest()
 				}
 				ev := c.fresh("v")
-				return fmt.Sprintf("do %s <- m_get %s %s;;\n%s", ev, rng, idx, bindVar(x.Value, ev, rest))
+				return fmt.Sprintf("do %s <- %s %s %s;;\n%s", ev, getFn08(t.exprType(x.X)), rng, idx, bindVar(x.Value, ev, rest)) // [ext:T08]
 			}))
 			return b.String()
 		}
@@ -739,6 +745,8 @@ func (t *Translator) emitFunc(fi *funcInfo) string {
 	if fi.loops {
 		params = append(params, "(fuel : nat)")
 	}
+	params = append(params, t.extParam08(fi)...) // [ext:T08] ext' : Foreign
+	t.checkHandles08(fi)                         // [ext:T08]
 	sig := fi.obj.Type().(*types.Signature)
 	if fi.recv != nil {
 		var name string
@@ -759,7 +767,7 @@ func (t *Translator) emitFunc(fi *funcInfo) string {
 		var name string
 		en, name = c.declare(en, p, g)
 		params = append(params, fmt.Sprintf("(%s : %s)", name, g.coq()))
-		if g.k == kSlice {
+		if g.k == kSlice && !fi.isOut08(i) { // [ext:T08] not an output parameter
 			en = en.share(name) // the caller still holds the array
 		}
 	}
@@ -775,6 +783,7 @@ func (t *Translator) emitFunc(fi *funcInfo) string {
 	for _, g := range t.ordered20(fi.gwrites) { // [ext:T20]
 		stateT = append(stateT, g.ty.coq())
 	}
+	stateT = append(stateT, t.outTypes08(fi)...) // [ext:T08] output parameters
 	if len(stateT) > 0 {
 		if len(rts) > 0 {
 			stateT = append(stateT, rt)
